@@ -778,7 +778,7 @@ func (g *gen) txCreate(pm *Model) *Tx {
 	}
 	note := "valid"
 	if g.chance(g.p.WInvalid * 0.5) {
-		note = g.pick("zeroprice", "zeroamount", "samedenom", "endbeforestart", "endpast", "weights", "releaseorder", "releasebeforeend", "baddenom", "toomanyrounds", "zerorate", "zerominprice", "funds", "toomanyvesting", "negweight")
+		note = g.pick("zeroprice", "zeroamount", "samedenom", "endbeforestart", "endpast", "weights", "releaseorder", "releasebeforeend", "baddenom", "toomanyrounds", "zerorate", "zerominprice", "funds", "toomanyvesting", "negweight", "releaseorder", "releaseorder")
 		switch note {
 		case "zeroprice":
 			m.StartPrice = g.pick("0", "-1")
@@ -804,7 +804,7 @@ func (g *gen) txCreate(pm *Model) *Tx {
 			m.Vesting = []VSched{{end + 10, "-0.5"}, {end + 20, "1.5"}}
 		case "releaseorder":
 			m.Vesting = g.vesting(3, end)
-			m.Vesting[1].ReleaseNs = m.Vesting[0].ReleaseNs - g.pickInt(0, 1)
+			m.Vesting[1].ReleaseNs = m.Vesting[0].ReleaseNs - g.pickInt(0, 0, 1) // mostly the same instant twice
 		case "releasebeforeend":
 			m.Vesting = g.vesting(2, end)
 			m.Vesting[0].ReleaseNs = end - g.pickInt(0, 1)
